@@ -1009,15 +1009,33 @@ Proof.
   split; vm_compute; reflexivity.
 Qed.
 
+(* the former class format-keys-without-sample-rows (repaired in e6b6f67): a RecordBuf with FORMAT
+   keys but no sample row, under a header without samples, is written exactly as the same record
+   without its keys (n_fmt = 0, no FORMAT block) and is read back as that record -- which is also
+   what the VCF writer and reader make of it *)
+Theorem c10_format_keys_without_rows_roundtrip : forall strings contigs h rlen r rest,
+  wf strings -> wf contigs -> h_nsamples h = O -> r_samples r = [] ->
+  bcf_site_ok strings contigs h rlen (drop_keys r) ->
+  (forall sb, enc_site strings contigs (site_of h rlen r) (info_fields r) 0 = Ok sb ->
+     Z.of_nat (length sb) <= 4294967295) ->
+  exists bs, bcf_write strings contigs h rlen r = Ok bs /\
+             bcf_read strings contigs h (bs ++ rest) = ROk (drop_keys r).
+Proof. exact keys_without_rows_roundtrip. Qed.
+Print Assumptions c10_format_keys_without_rows_roundtrip.
+
 (* ==== lazy accessors (c10-lazy) ==== *)
 (* The LAZY read path, NV.Bcf.Lazy.lazy_read: bcf::io::Reader::read_record into a bcf::Record
    (Fields::index builds the bounds with consume_string / consume_integers) followed by
    vcf::variant::RecordBuf::try_from_variant_record, which forces every lazy view.  The model returns a
    panic outcome where the Rust could panic (every `&buf[s..e]`, Filters' `read_type(..).unwrap()` and
    `unreachable!()`, `allele_count() - 1`) and is compared byte for byte with the real crates by the
-   `lz` kind of bin/check C10.  v44 = the header's file format is VCF 4.4 or later. *)
+   `lz` kind of bin/check C10.  v44 = the header's file format is VCF 4.4 or later.
+   The model is that of the tree AFTER the repairs 0b0f2ab (the record's own raw Character / String array
+   views), 0ba8d0b (an empty allele string is `.`), a1ba5e6 (a GT series without values: the missing
+   value for every sample, in both readers), e4c926c (INFO Character: one character of any encoded
+   length) and a82186d (Samples::series yields exactly n_fmt series). *)
 From NV Require Import Bcf.Lazy Bcf.LazyProofs Bcf.LazySiteProofs Bcf.LazyInfoProofs Bcf.LazyFmtProofs
-  Bcf.LazyColProofs Bcf.LazyEagerProofs Bcf.LazyClasses.
+  Bcf.LazyColProofs Bcf.LazyEagerProofs Bcf.LazyConverse Bcf.LazyClasses Bcf.NeverPanics.
 From NV Require Import Bcf.Ints Bcf.Typed Bcf.Strings Bcf.Genotype Bcf.StringMap Bcf.Record Bcf.RecordTyped.
 
 (* (a) TOTALITY: for every byte string, every dictionary, every header typing of the keys and either
@@ -1045,23 +1063,32 @@ Theorem c10_lazy_index_bounds : forall sb bd, index_bounds sb = Some bd ->
 Proof. exact index_bounds_ok. Qed.
 Print Assumptions c10_lazy_index_bounds.
 
-(* the two loops of the model that run on a fuel (Samples::series until the block is empty,
-   Filters::indices over chunks) never run out of it: every step consumes a byte, the fuel is the
-   length of the input, and any larger fuel gives the same result *)
+(* the two loops of the model that run on a fuel (str::chars over a text, Filters::indices over chunks)
+   never run out of it: every step consumes a byte, the fuel is the length of the input, and any larger
+   fuel gives the same result.  (Samples::series is structural since a82186d: n_fmt steps.) *)
 Theorem c10_lazy_fuel_enough :
-  (forall n ns bs f1 f2, (length bs <= n)%nat -> (n <= f1)%nat -> (n <= f2)%nat ->
-     lz_all_series f1 ns bs = lz_all_series f2 ns bs) /\
+  (forall n s f1 f2, (length s <= n)%nat -> (n <= f1)%nat -> (n <= f2)%nat ->
+     utf8_chars_fuel f1 s = utf8_chars_fuel f2 s) /\
   (forall w n bs f1 f2, (length bs <= n)%nat -> (n <= f1)%nat -> (n <= f2)%nat ->
      lz_filter_entries w f1 bs = lz_filter_entries w f2 bs).
-Proof. exact (conj lz_all_series_fuel lz_filter_entries_fuel). Qed.
+Proof. exact (conj utf8_chars_fuel_enough lz_filter_entries_fuel). Qed.
 Print Assumptions c10_lazy_fuel_enough.
 
-(* (b) LAZY = EAGER.  For EVERY record the eager read_record_buf accepts, outside the decidable class
-   lazy_agree = false (an empty REF/ALT typed string; a Character / String array with a piece that is
-   not one ASCII byte / that percent-decoding changes / an empty per-sample String array; a zero-length
-   GT series; a per-sample Character whose first byte is not ASCII; bytes after the n_fmt series of the
-   samples block), the lazy path accepts it and builds the same RecordBuf up to trec_norm (a per-sample
-   vector that is one missing entry = the missing value; before VCF 4.4 the first allele's phasing) *)
+(* Samples::validate accepts exactly when the series iterator yields its n_fmt series: after
+   Record::samples() succeeded, Samples::series never returns an error (and never looks past them) *)
+Theorem c10_lazy_validate_is_the_series : forall ns nf bs,
+  lz_validate ns nf bs = true <-> exists ss, lz_n_series ns nf bs = Some ss /\ length ss = nf.
+Proof. exact lz_validate_n_series. Qed.
+Print Assumptions c10_lazy_validate_is_the_series.
+
+(* (b) LAZY = EAGER.  For EVERY record the eager read_record_buf accepts, the lazy path accepts it and
+   builds the same RecordBuf up to trec_norm (a per-sample vector that is one missing entry = the
+   missing value; before VCF 4.4 the first allele's phasing).  The seven classes on which the lazy
+   accessors differed are no longer excluded.  What lazy_agree still asks for is that the record's
+   Characters are ASCII: an INFO Character ARRAY is ASCII text, a per-sample Character (every element of
+   a per-sample Character array) starts with an ASCII byte.  This is the documented assumption of the
+   EAGER MODEL NV.Bcf.Strings (a Character is one byte), not a difference of the two readers: the real
+   read_record_buf and the real lazy path return the same characters there (corpus/C10/lazy.case). *)
 Theorem c10_lazy_eq_eager : forall v44 strings contigs ik fk hs bs t,
   byte_list bs ->
   dec_record_typed strings contigs ik fk hs bs = ROk t ->
@@ -1070,10 +1097,58 @@ Theorem c10_lazy_eq_eager : forall v44 strings contigs ik fk hs bs t,
 Proof. exact lazy_eq_eager. Qed.
 Print Assumptions c10_lazy_eq_eager.
 
+(* lazy_agree, spelled out *)
+Theorem c10_lazy_agree_is_ascii : forall strings contigs ik fk hs bs,
+  lazy_agree strings contigs ik fk hs bs =
+  match dec_record_k strings contigs hs bs with
+  | Some (h, infos, fmts, _) =>
+    forallb (fun kv : name * list N =>
+      match ik (fst kv), dec_info_string (snd kv) with
+      | Some (KChar true), ROk (Some s) => forallb (fun b => (b <? 128)%N) s
+      | _, _ => true
+      end) infos
+    && forallb (fun kv : name * list N =>
+      match read_type (snd kv) with
+      | Some (code, len, pay) =>
+        if name_eqb (fst kv) GT then true
+        else match fk (fst kv) with
+             | Some (FChar true) =>
+               cells_all (fun x => first_ascii (until_nul x)) (Z.to_nat (h_n_sample h)) (znat (S (length pay)) len) pay
+             | Some (FChar false) =>
+               cells_all (fun x => forallb first_ascii (split_on comma (until_nul x)))
+                         (Z.to_nat (h_n_sample h)) (znat (S (length pay)) len) pay
+             | _ => true
+             end
+      | None => true
+      end) fmts
+  | None => true
+  end.
+Proof. reflexivity. Qed.
+Print Assumptions c10_lazy_agree_is_ascii.
+
+(* ... so under a header without Character arrays in INFO and without Character FORMAT keys the theorem
+   has no condition but the bytes being bytes *)
+Theorem c10_lazy_eq_eager_without_characters : forall v44 strings contigs ik fk hs bs t,
+  (forall k, ik k <> Some (KChar true)) /\ (forall k b, fk k <> Some (FChar b)) ->
+  byte_list bs ->
+  dec_record_typed strings contigs ik fk hs bs = ROk t ->
+  exists t', lazy_read v44 strings contigs ik fk bs = ROk t' /\ trec_norm v44 t' = trec_norm v44 t.
+Proof. exact lazy_eq_eager_without_characters. Qed.
+Print Assumptions c10_lazy_eq_eager_without_characters.
+
+(* agreement of the error cases, in the direction that holds everywhere: what the lazy path rejects, the
+   eager reader rejects (the other direction holds outside lazy_only: c10_lazy_converse) *)
+Theorem c10_lazy_rejects_eager_rejects : forall v44 strings contigs ik fk hs bs,
+  byte_list bs -> lazy_agree strings contigs ik fk hs bs = true ->
+  lazy_read v44 strings contigs ik fk bs = RErr ->
+  dec_record_typed strings contigs ik fk hs bs = RErr.
+Proof. exact lazy_rejects_eager_rejects. Qed.
+Print Assumptions c10_lazy_rejects_eager_rejects.
+
 (* per view: the site (reference sequence name, position, quality, IDs, REF, ALT, FILTER, the counts and
-   the INFO bytes), whatever read_site decodes, outside lazy-empty-allele *)
+   the INFO bytes), whatever read_site decodes -- no condition since 0ba8d0b *)
 Theorem c10_lazy_site_eq_eager : forall strings contigs sb h info_bytes,
-  byte_list sb -> dec_head strings contigs sb = Some (h, info_bytes) -> site_alleles_nonempty sb = true ->
+  byte_list sb -> dec_head strings contigs sb = Some (h, info_bytes) ->
   exists bd,
     lz_index sb = ROk bd /\ lz_chrom contigs sb = ROk (h_chrom h) /\ lz_pos sb = ROk (h_pos h) /\
     lz_qual sb = ROk (h_qual h) /\ lz_ids bd sb = ROk (h_ids h) /\ lz_ref bd sb = ROk (h_ref h) /\
@@ -1081,8 +1156,8 @@ Theorem c10_lazy_site_eq_eager : forall strings contigs sb h info_bytes,
     lz_slice (b_filters_end bd) (length sb) sb = ROk info_bytes /\
     lz_u16 16 sb = ROk (h_n_info h) /\ lz_format_count sb = ROk (h_n_fmt h) /\ lz_sample_count sb = ROk (h_n_sample h).
 Proof.
-  intros strings contigs sb h info_bytes Hb H Hne.
-  destruct (site_agree strings contigs sb h info_bytes Hb H Hne) as [bd Hsv]. exists bd.
+  intros strings contigs sb h info_bytes Hb H.
+  destruct (site_agree strings contigs sb h info_bytes Hb H) as [bd Hsv]. exists bd.
   destruct Hsv. repeat split; assumption.
 Qed.
 Print Assumptions c10_lazy_site_eq_eager.
@@ -1095,16 +1170,16 @@ Theorem c10_lazy_info_eq_eager : forall strings ik n bs infos r ivs,
               | None => RErr
               | Some k => rbind (dec_info_kind k (snd kv)) (fun v => ROk (fst kv, v))
               end) infos = ROk ivs ->
-  forallb (info_plain ik) infos = true ->
+  forallb (info_ascii ik) infos = true ->
   lz_info_fields strings ik n bs = ROk ivs /\ map fst ivs = map fst infos /\ keys_distinct (map fst infos) = true.
 Proof. exact info_fields_agree. Qed.
 Print Assumptions c10_lazy_info_eq_eager.
 
-(* per view: one FORMAT series of any kind (GT; Integer / Float / Character / String, scalar or array):
-   Series::get(header, i) for i = 0..n_sample-1 is the eager column *)
+(* per view: one FORMAT series of any kind (GT, with or without values; Integer / Float / Character /
+   String, scalar or array): Series::get(header, i) for i = 0..n_sample-1 is the eager column *)
 Theorem c10_lazy_series_eq_eager : forall v44 fk ns k vb id code len pay ecol,
   byte_list pay -> read_type vb = Some (code, len, pay) ->
-  eager_column fk ns (k, vb) = ROk ecol -> fmt_plain fk ns (k, vb) = true ->
+  eager_column fk ns (k, vb) = ROk ecol -> fmt_ascii fk ns (k, vb) = true ->
   exists lcol, lz_column v44 fk ns k (mk_series id code len pay) = ROk lcol /\
                map (cell_norm v44) lcol = map (cell_norm v44) ecol.
 Proof. exact column_agree. Qed.
@@ -1125,60 +1200,276 @@ Theorem c10_lazy_utf8_split : forall p c r, (c < 128)%N ->
 Proof. intros p c r H. apply (utf8_split_ascii (length p)); [apply le_n|exact H]. Qed.
 Print Assumptions c10_lazy_utf8_split.
 
-(* the excluded classes are real: on each, a record the eager reader accepts and the lazy path rejects or
-   reads differently (each witness is also a case of corpus/C10/lazy.case, run against the real crates) *)
-Theorem c10_lazy_empty_allele_refuted :
-  (is_ok (eager KFlag (FInt true) 0 w_empty_ref) = true /\ is_ok (lazy true KFlag (FInt true) w_empty_ref) = true /\
-   agree KFlag (FInt true) 0 w_empty_ref = false /\
-   ~ same true (lazy true KFlag (FInt true) w_empty_ref) (eager KFlag (FInt true) 0 w_empty_ref)) /\
-  (is_ok (eager KFlag (FInt true) 0 w_empty_alt) = true /\ is_err (lazy true KFlag (FInt true) w_empty_alt) = true /\
-   agree KFlag (FInt true) 0 w_empty_alt = false).
-Proof. exact (conj lazy_empty_ref_refuted lazy_empty_alt_refuted). Qed.
-Print Assumptions c10_lazy_empty_allele_refuted.
+(* The seven former classes.  Each `_refuted` witness of the unrepaired tree -- a record the eager reader
+   accepted and the lazy path rejected or read differently -- is now a record BOTH models accept, inside
+   lazy_agree, with the same RecordBuf (agrees = eager accepts /\ lazy_agree /\ equal up to trec_norm),
+   and the value that used to differ is stated.  The records are cases of corpus/C10/lazy.case. *)
+(* lazy-empty-allele: REF / ALT = the typed string of length 0 is `.` *)
+Theorem c10_lazy_empty_allele_agrees :
+  (agrees true KFlag (FInt true) 0 w_empty_ref /\
+   match lazy true KFlag (FInt true) w_empty_ref with ROk t => h_ref (t_head t) = [dot] | _ => False end) /\
+  (agrees true KFlag (FInt true) 0 w_empty_alt /\
+   match lazy true KFlag (FInt true) w_empty_alt with ROk t => h_alts (t_head t) = [[dot]] | _ => False end).
+Proof. exact (conj lazy_empty_ref_agrees lazy_empty_alt_agrees). Qed.
+Print Assumptions c10_lazy_empty_allele_agrees.
 
-Theorem c10_lazy_samples_trailing_bytes_refuted :
-  (is_ok (eager KFlag (FInt true) 0 w_trailing) = true /\ is_err (lazy true KFlag (FInt true) w_trailing) = true /\
-   agree KFlag (FInt true) 0 w_trailing = false) /\
-  (is_ok (eager KFlag (FInt true) 1 w_trailing_series) = true /\ is_ok (lazy true KFlag (FInt true) w_trailing_series) = true /\
-   agree KFlag (FInt true) 1 w_trailing_series = false /\
-   ~ same true (lazy true KFlag (FInt true) w_trailing_series) (eager KFlag (FInt true) 1 w_trailing_series)).
-Proof. exact (conj lazy_trailing_bytes_refuted lazy_trailing_series_refuted). Qed.
-Print Assumptions c10_lazy_samples_trailing_bytes_refuted.
+(* lazy-samples-block-trailing-bytes: a byte / a whole series after the n_fmt series is not looked at *)
+Theorem c10_lazy_samples_trailing_bytes_agrees :
+  agrees true KFlag (FInt true) 0 w_trailing /\
+  (agrees true KFlag (FInt true) 1 w_trailing_series /\
+   match lazy true KFlag (FInt true) w_trailing_series with
+   | ROk t => t_keys t = [nY] /\ t_rows t = [[CI (Some 5)]]
+   | _ => False
+   end).
+Proof. exact (conj lazy_trailing_bytes_agrees lazy_trailing_series_agrees). Qed.
+Print Assumptions c10_lazy_samples_trailing_bytes_agrees.
 
-Theorem c10_lazy_gt_zero_length_refuted :
-  is_ok (eager KFlag (FInt true) 1 w_gt_zero) = true /\ is_ok (lazy true KFlag (FInt true) w_gt_zero) = true /\
-  agree KFlag (FInt true) 1 w_gt_zero = false /\
-  ~ same true (lazy true KFlag (FInt true) w_gt_zero) (eager KFlag (FInt true) 1 w_gt_zero).
-Proof. exact lazy_gt_zero_length_refuted. Qed.
-Print Assumptions c10_lazy_gt_zero_length_refuted.
+(* lazy-gt-zero-length: a GT series without values is the missing value for every sample, in BOTH readers,
+   and the series after it stay aligned (the eager reader used to return the rows [., 5] and [6]) *)
+Theorem c10_lazy_gt_zero_length_agrees :
+  (agrees true KFlag (FInt true) 1 w_gt_zero /\
+   match lazy true KFlag (FInt true) w_gt_zero with ROk t => t_rows t = [[CG None]] | _ => False end) /\
+  (agrees true KFlag (FInt true) 2 w_gt_zero_rows /\
+   match eager KFlag (FInt true) 2 w_gt_zero_rows with
+   | ROk t => t_rows t = [[CG None; CI (Some 5)]; [CG None; CI (Some 6)]]
+   | _ => False
+   end).
+Proof. exact (conj lazy_gt_zero_length_agrees lazy_gt_zero_length_rows_agree). Qed.
+Print Assumptions c10_lazy_gt_zero_length_agrees.
 
-Theorem c10_lazy_string_arrays_refuted :
-  (is_ok (eager (KStr true) (FInt true) 0 w_percent) = true /\ is_ok (lazy true (KStr true) (FInt true) w_percent) = true /\
-   agree (KStr true) (FInt true) 0 w_percent = false /\
-   ~ same true (lazy true (KStr true) (FInt true) w_percent) (eager (KStr true) (FInt true) 0 w_percent)) /\
-  (is_ok (eager (KChar true) (FInt true) 0 w_chars) = true /\ is_err (lazy true (KChar true) (FInt true) w_chars) = true /\
-   agree (KChar true) (FInt true) 0 w_chars = false) /\
-  (is_ok (eager KFlag (FStr false) 1 w_empty_cell) = true /\ is_ok (lazy true KFlag (FStr false) w_empty_cell) = true /\
-   agree KFlag (FStr false) 1 w_empty_cell = false /\
-   ~ same true (lazy true KFlag (FStr false) w_empty_cell) (eager KFlag (FStr false) 1 w_empty_cell)).
-Proof. exact (conj lazy_percent_escape_refuted (conj lazy_char_piece_refuted lazy_string_array_empty_refuted)). Qed.
-Print Assumptions c10_lazy_string_arrays_refuted.
+(* lazy-array-percent-escape ("%41,b" stays ["%41", "b"]), lazy-char-array-piece-not-one-char ("ab" is
+   [a, b]), lazy-string-array-empty (the empty per-sample text is [""], the text "." the missing value) *)
+Theorem c10_lazy_string_arrays_agree :
+  (agrees true (KStr true) (FInt true) 0 w_percent /\
+   match lazy true (KStr true) (FInt true) w_percent with
+   | ROk t => t_info t = [(nX, IS (SStrs [Some [37; 52; 49]; Some [98]]))]%N
+   | _ => False
+   end) /\
+  (agrees true (KChar true) (FInt true) 0 w_chars /\
+   match lazy true (KChar true) (FInt true) w_chars with
+   | ROk t => t_info t = [(nX, IS (SChars [Some 97; Some 98]))]%N
+   | _ => False
+   end) /\
+  (agrees true KFlag (FStr false) 1 w_empty_cell /\
+   match lazy true KFlag (FStr false) w_empty_cell with ROk t => t_rows t = [[CSV (Some [Some []])]] | _ => False end) /\
+  (agrees true KFlag (FStr false) 1 w_dot_cell /\
+   lazy true KFlag (FStr false) w_dot_cell = eager KFlag (FStr false) 1 w_dot_cell).
+Proof.
+  exact (conj lazy_percent_escape_agrees (conj lazy_char_piece_agrees
+        (conj lazy_string_array_empty_agrees lazy_string_array_dot_agrees))).
+Qed.
+Print Assumptions c10_lazy_string_arrays_agree.
 
-(* the other direction does not hold either: records the lazy path accepts and the eager reader rejects
-   (n_sample above the header's sample count; a zero-length FILTER vector) *)
+(* lazy-info-character-multibyte: the lazy INFO Character accessor returns a character of two bytes
+   (U+00E9).  That the real read_record_buf returns it too is checked on the implementation (corpus
+   case, oracle); the eager MODEL rejects it -- a Character of NV.Bcf.Strings is one byte *)
+Theorem c10_lazy_info_character_multibyte_read :
+  match lazy true (KChar false) (FInt true) w_multibyte with
+  | ROk t => t_info t = [(nX, IS (SChar 233))]%N
+  | _ => False
+  end /\ is_err (eager (KChar false) (FInt true) 0 w_multibyte) = true.
+Proof. exact lazy_info_character_multibyte_read. Qed.
+Print Assumptions c10_lazy_info_character_multibyte_read.
+
+(* the one thing lazy_agree excludes is inhabited, and the two MODELS do differ there: an INFO Character
+   array holding U+00E9 is [U+00E9] in the lazy model and the two bytes [c3, a9] in the eager model
+   (the real readers both return [U+00E9]: corpus case, oracle) *)
+Theorem c10_lazy_agree_excludes_nonascii_characters :
+  agree (KChar true) (FInt true) 0 w_nonascii_chars = false /\
+  is_ok (eager (KChar true) (FInt true) 0 w_nonascii_chars) = true /\
+  match lazy true (KChar true) (FInt true) w_nonascii_chars with
+  | ROk t => t_info t = [(nX, IS (SChars [Some 233]))]%N
+  | _ => False
+  end /\
+  ~ same true (lazy true (KChar true) (FInt true) w_nonascii_chars) (eager (KChar true) (FInt true) 0 w_nonascii_chars).
+Proof. exact lazy_agree_excludes_nonascii_characters. Qed.
+Print Assumptions c10_lazy_agree_excludes_nonascii_characters.
+
+(* (c) THE CONVERSE.  The lazy path accepts more than read_record_buf; the class on which it does is the
+   decidable predicate lazy_only of the input (computed from the lazy walk of the same bytes):
+     site_lazy_only   rlen < 0 (the lazy path never looks at the span), or a FILTER value that is an
+                      integer vector of length 0 (read_string_map_indices rejects it, Filters::iter
+                      returns no filter);
+     hs < n_sample    n_sample above the header's sample count (the lazy path never consults the names);
+     info_lazy_only   the same INFO key twice (read_info: DuplicateKey; the lazy path collects into an
+                      IndexMap and keeps the later value), or an INFO Character (Number=1) that is one
+                      character of several bytes (rejected by the eager MODEL only: a Character of
+                      NV.Bcf.Strings is one byte; the real read_record_buf accepts it);
+     fmt_lazy_only    a series whose descriptor read_samples rejects before it reads a sample -- a key
+                      without FORMAT definition (for GT: asked for by the eager MODEL only), a type
+                      that does not fit the definition, a zero-length Integer / Float vector -- which
+                      Series::get checks only when a sample asks for a value, i.e. never when
+                      n_sample = 0; or a GT cell with a byte of 0x80, 0x82..0xff before its end
+                      (parse_genotype_values: InvalidGenotype; the lazy Genotype::iter stops at a byte of
+                      0x80..0x87 and takes every other byte for an allele). *)
+Theorem c10_lazy_only_spelled_out : forall strings ik fk hs bs,
+  lazy_only strings ik fk hs bs =
+  match dec_frame bs with
+  | Some (sb, ib, _) =>
+    site_lazy_only sb
+    || match lz_index sb, lz_sample_count sb, lz_format_count sb, lz_u16 16 sb with
+       | ROk bd, ROk nsz, ROk nf, ROk ni =>
+         (hs <? nsz)
+         || match lz_slice (b_filters_end bd) (length sb) sb with
+            | ROk info_bytes => info_lazy_only strings ik (Z.to_nat ni) info_bytes
+            | _ => false
+            end
+         || fmt_lazy_only strings fk (Z.to_nat nsz) (Z.to_nat nf) ib
+       | _, _, _, _ => false
+       end
+  | None => false
+  end.
+Proof. reflexivity. Qed.
+Print Assumptions c10_lazy_only_spelled_out.
+
+Theorem c10_lazy_only_parts :
+  (forall sb, site_lazy_only sb =
+     (dec_int W32 (firstn 4 (skipn 8 sb)) <? 0)
+     || match index_bounds sb with
+        | Some bd => match read_type (skipn (b_alt_end bd) sb) with
+                     | Some (c, l, _) => negb (c =? 0) && (l =? 0)
+                     | None => false
+                     end
+        | None => false
+        end) /\
+  (forall strings ik n ib, info_lazy_only strings ik n ib =
+     negb (match lz_info_fields strings ik n ib with ROk l => keys_distinct (map fst l) | _ => true end)
+     || negb (lz_info_char_ascii strings ik n ib)) /\
+  (forall strings fk ns nf ib, fmt_lazy_only strings fk ns nf ib =
+     match lz_n_series ns nf ib with
+     | Some ss =>
+       match lz_names strings ss with
+       | ROk nms => negb (series_all (fun nm s => series_header_ok fk nm s && series_gt_ok ns nm s) nms ss)
+       | _ => false
+       end
+     | None => false
+     end) /\
+  (forall fk nm s, series_header_ok fk nm s =
+     match fk nm with
+     | None => false
+     | Some k =>
+       if name_eqb nm GT then se_code s =? 1
+       else negb ((se_len s =? 0) && negb (se_code s =? 7)) &&
+            match k with
+            | FInt _ => is_some (width_of_code (se_code s))
+            | FFloat _ => se_code s =? 5
+            | FChar _ | FStr _ => se_code s =? 7
+            end
+     end) /\
+  (forall ns nm s, series_gt_ok ns nm s =
+     if name_eqb nm GT
+     then cells_all gt_cell_plain ns (1 * znat (S (length (se_pay s))) (se_len s)) (se_pay s)
+     else true) /\
+  (forall b r, gt_cell_plain (b :: r) = if (b =? 129)%N then true else (b <? 128)%N && gt_cell_plain r).
+Proof. repeat split. Qed.
+Print Assumptions c10_lazy_only_parts.
+
+(* outside lazy_only (and inside lazy_agree, the ASCII premise of the eager model) a record the lazy path
+   accepts is accepted by read_record_buf, with the same RecordBuf *)
+Theorem c10_lazy_converse : forall v44 strings contigs ik fk hs bs t',
+  byte_list bs ->
+  lazy_read v44 strings contigs ik fk bs = ROk t' ->
+  lazy_only strings ik fk hs bs = false ->
+  lazy_agree strings contigs ik fk hs bs = true ->
+  exists t, dec_record_typed strings contigs ik fk hs bs = ROk t /\ trec_norm v44 t' = trec_norm v44 t.
+Proof. exact lazy_converse. Qed.
+Print Assumptions c10_lazy_converse.
+
+(* acceptance alone needs no ASCII premise *)
+Theorem c10_lazy_accepts_eager_accepts : forall v44 strings contigs ik fk hs bs t',
+  byte_list bs ->
+  lazy_read v44 strings contigs ik fk bs = ROk t' ->
+  lazy_only strings ik fk hs bs = false ->
+  exists t, dec_record_typed strings contigs ik fk hs bs = ROk t.
+Proof. exact lazy_accepts_eager_accepts. Qed.
+Print Assumptions c10_lazy_accepts_eager_accepts.
+
+(* both directions: outside the two classes the two readers accept the same records and reject the same
+   records *)
+Theorem c10_lazy_iff_eager : forall v44 strings contigs ik fk hs bs,
+  byte_list bs -> lazy_only strings ik fk hs bs = false -> lazy_agree strings contigs ik fk hs bs = true ->
+  ((exists t', lazy_read v44 strings contigs ik fk bs = ROk t') <->
+   (exists t, dec_record_typed strings contigs ik fk hs bs = ROk t)) /\
+  (lazy_read v44 strings contigs ik fk bs = RErr <-> dec_record_typed strings contigs ik fk hs bs = RErr).
+Proof. exact lazy_iff_eager. Qed.
+Print Assumptions c10_lazy_iff_eager.
+
+(* the class is EXACT: every member of lazy_only is rejected by the eager reader -- so (inside lazy_agree)
+   "the lazy path accepts and read_record_buf rejects" happens on the members of lazy_only that the lazy
+   path accepts, and nowhere else *)
+Theorem c10_lazy_only_eager_rejects : forall strings contigs ik fk hs bs,
+  byte_list bs -> lazy_agree strings contigs ik fk hs bs = true ->
+  lazy_only strings ik fk hs bs = true ->
+  dec_record_typed strings contigs ik fk hs bs = RErr.
+Proof. exact lazy_only_eager_rejects. Qed.
+Print Assumptions c10_lazy_only_eager_rejects.
+
+(* per view: the site.  When Fields::index and the lazy views succeed, read_site succeeds, outside
+   site_lazy_only; with c10_lazy_site_eq_eager: on the site block the lazy views accept exactly what
+   read_site accepts plus rlen < 0 and the zero-length FILTER vector *)
+Theorem c10_lazy_site_converse : forall strings contigs sb bd c p q rf alts fs,
+  lz_index sb = ROk bd -> lz_chrom contigs sb = ROk c -> lz_pos sb = ROk p -> lz_qual sb = ROk q ->
+  lz_ref bd sb = ROk rf -> lz_alts bd sb = ROk alts -> lz_filters strings bd sb = ROk fs ->
+  site_lazy_only sb = false ->
+  exists h info_bytes, dec_head strings contigs sb = Some (h, info_bytes).
+Proof. exact site_converse. Qed.
+Print Assumptions c10_lazy_site_converse.
+
+(* per view: one FORMAT series of any kind *)
+Theorem c10_lazy_series_converse : forall v44 fk ns nm id code len pay vb lcol,
+  byte_list pay -> read_type vb = Some (code, len, pay) ->
+  lz_column v44 fk ns nm (mk_series id code len pay) = ROk lcol ->
+  series_header_ok fk nm (mk_series id code len pay) = true ->
+  series_gt_ok ns nm (mk_series id code len pay) = true ->
+  exists ecol, eager_column fk ns (nm, vb) = ROk ecol.
+Proof. exact column_converse. Qed.
+Print Assumptions c10_lazy_series_converse.
+
+(* the class is inhabited in each of its parts, by records the lazy path accepts and the eager reader
+   rejects.  The repairs did not touch these; each is a case of corpus/C10/lazy.case, on which the real
+   lazy path returns the model's RecordBuf and the real read_record_buf returns an error: n_sample above
+   the header's sample count; a zero-length FILTER vector; rlen < 0; the same INFO key twice; a GT cell
+   that starts with the missing Int8 (the lazy genotype has NO alleles); n_sample = 0 with a series whose
+   key has no FORMAT definition. *)
 Theorem c10_lazy_accepts_more_than_eager :
   (is_err (eager KFlag (FInt true) 0 w_more_samples) = true /\ is_ok (lazy true KFlag (FInt true) w_more_samples) = true) /\
-  (is_err (eager KFlag (FInt true) 0 w_filter_len0) = true /\ is_ok (lazy true KFlag (FInt true) w_filter_len0) = true).
-Proof. exact (conj lazy_accepts_sample_count_eager_rejects lazy_accepts_empty_filter_vector_eager_rejects). Qed.
+  (is_err (eager KFlag (FInt true) 0 w_filter_len0) = true /\ is_ok (lazy true KFlag (FInt true) w_filter_len0) = true) /\
+  (is_err (eager KFlag (FInt true) 0 w_neg_rlen) = true /\ is_ok (lazy true KFlag (FInt true) w_neg_rlen) = true) /\
+  (is_err (eager KFlag (FInt true) 0 w_dup_info) = true /\
+   match lazy true KFlag (FInt true) w_dup_info with ROk t => t_info t = [(nX, IFlagV)] | _ => False end) /\
+  (is_err (eager KFlag (FInt true) 1 w_gt_missing_byte) = true /\
+   match lazy true KFlag (FInt true) w_gt_missing_byte with ROk t => t_rows t = [[CG (Some [])]] | _ => False end) /\
+  (is_err (eager KFlag (FInt true) 0 w_no_samples_undefined_key) = true /\
+   match lazy true KFlag (FInt true) w_no_samples_undefined_key with ROk t => t_keys t = [nX] /\ t_rows t = [] | _ => False end).
+Proof.
+  exact (conj lazy_accepts_sample_count_eager_rejects (conj lazy_accepts_empty_filter_vector_eager_rejects
+        (conj lazy_accepts_negative_rlen_eager_rejects (conj lazy_accepts_duplicate_info_key_eager_rejects
+        (conj lazy_accepts_gt_sentinel_eager_rejects lazy_accepts_undefined_key_without_samples_eager_rejects))))).
+Qed.
 Print Assumptions c10_lazy_accepts_more_than_eager.
+
+Theorem c10_lazy_only_witnesses :
+  only KFlag (FInt true) 0 w_more_samples = true /\ only KFlag (FInt true) 0 w_filter_len0 = true /\
+  only KFlag (FInt true) 0 w_neg_rlen = true /\ only KFlag (FInt true) 0 w_dup_info = true /\
+  only KFlag (FInt true) 1 w_gt_missing_byte = true /\ only KFlag (FInt true) 0 w_no_samples_undefined_key = true /\
+  only (KChar false) (FInt true) 0 w_multibyte = true.
+Proof. exact lazy_only_witnesses. Qed.
+Print Assumptions c10_lazy_only_witnesses.
 
 (* non-vacuity: a record with IDs, an ALT, a FILTER, an INFO String array, GT and a per-sample String
    array over two samples under a VCF 4.3 header lies inside the class, is accepted by both paths, the
    two RecordBufs are equal up to trec_norm -- and are NOT equal as they stand (the first allele's
-   phasing and the `.` cell), so the normal form is needed *)
+   phasing), so the normal form is needed *)
 Example c10_lazy_eq_eager_example :
   agree (KStr true) (FStr false) 2 w_good = true /\ is_ok (eager (KStr true) (FStr false) 2 w_good) = true /\
   same false (lazy false (KStr true) (FStr false) w_good) (eager (KStr true) (FStr false) 2 w_good) /\
   lazy false (KStr true) (FStr false) w_good <> eager (KStr true) (FStr false) 2 w_good.
 Proof. exact lazy_agree_nonvacuous. Qed.
+
+(* ... and it is outside lazy_only, inside lazy_agree and accepted by the lazy path: the premises of the
+   converse are satisfiable *)
+Example c10_lazy_converse_example :
+  only (KStr true) (FStr false) 2 w_good = false /\ agree (KStr true) (FStr false) 2 w_good = true /\
+  is_ok (lazy false (KStr true) (FStr false) w_good) = true.
+Proof. exact lazy_converse_nonvacuous. Qed.
 (* ==== end lazy ==== *)
